@@ -158,6 +158,44 @@ def laplacian (den : Nat) (tf tb : Table) (shape : Nat → Nat) (ndim : Nat) (c 
 
 end
 
+/-! ### `.adjoint` and `.derivative` of the four classes (which instance is returned) -/
+
+inductive Kind | pd | grad | div | lap
+  deriving DecidableEq, Repr
+
+/-- An operator instance: class, method (unused by `lap`), pad mode, pad constant, and the
+sign it is multiplied with (`-Divergence(…)` has `neg = true`). -/
+structure Op (K : Type) where
+  kind : Kind
+  method : Method
+  pad : Pad
+  c : K
+  neg : Bool := false
+
+section
+variable {K : Type} [OfNat K 0] [DecidableEq K]
+
+/-- `linear = not (pad_mode == 'constant' and pad_const != 0)`; `Laplacian` passes
+`linear=True` unconditionally. -/
+def Op.isLinear (o : Op K) : Bool :=
+  match o.kind with
+  | .lap => true
+  | _ => !(o.pad == .constant && o.c != 0)
+
+/-- `.adjoint`: `none` is the `ValueError` for a non-linear instance. -/
+def Op.adjoint (adjM : Method → Method) (adjP : Pad → Pad) (o : Op K) : Option (Op K) :=
+  match o.kind with
+  | .pd => if o.isLinear then some ⟨.pd, adjM o.method, adjP o.pad, o.c, !o.neg⟩ else none
+  | .grad => if o.isLinear then some ⟨.div, adjM o.method, adjP o.pad, o.c, !o.neg⟩ else none
+  | .div => if o.isLinear then some ⟨.grad, adjM o.method, adjP o.pad, 0, !o.neg⟩ else none
+  | .lap => some ⟨.lap, o.method, o.pad, 0, o.neg⟩
+
+/-- `.derivative(point)`: the zero-padding instance for the affine variant, else `self`. -/
+def Op.derivative (o : Op K) : Op K :=
+  if o.pad == .constant && o.c != 0 then { o with c := 0 } else o
+
+end
+
 /-- Gaussian rationals as scalars of the executable model. -/
 instance : IntCast CRat := ⟨fun i => CRat.ofRat (i : Rat)⟩
 instance : NatCast CRat := ⟨fun i => CRat.ofRat (i : Rat)⟩
